@@ -29,6 +29,7 @@ import (
 	"sync"
 	"syscall"
 	"time"
+	"unicode"
 	"unicode/utf8"
 
 	"verif/mc/core"
@@ -412,6 +413,44 @@ func run(r *core.Run) {
 	symbolRun("wide", symAlphabetWide, wideLen, nil)
 	symbolRun("sign-colon", symAlphabetSign, signLen, map[string]bool{"paren": true, "pair": true, "before-open": true, "quoted": true})
 	symbolRun("utf8-edges", symAlphabetEdges, edgeSymLen, map[string]bool{"paren": true, "pair": true, "before-open": true, "quoted": true})
+	// letter sweep: EVERY rune the Go unicode tables call a letter (the class docs/lang.md names: "utf-8 letters"), as a
+	// whole symbol, after a letter, before a letter and inside a keyword: one symbol each time, for the three readers
+	var letters []rune
+	for c := rune(0x80); c <= unicode.MaxRune; c++ {
+		if unicode.IsLetter(c) {
+			letters = append(letters, c)
+		}
+	}
+	letterShapes := []func(string) string{
+		func(l string) string { return l },
+		func(l string) string { return "a" + l },
+		func(l string) string { return l + "a" },
+		func(l string) string { return ":k" + l },
+		func(l string) string { return "p:" + l + "-x" },
+	}
+	if !thorough {
+		letterShapes = letterShapes[:3]
+	}
+	nlet := int64(len(letters) * len(letterShapes))
+	r.Bound("V-symbol.letter-sweep.letters", len(letters))
+	r.Bound("V-symbol.letter-sweep.spellings", nlet)
+	core.ParallelRange(r, lim("V-symbol", nlet), func(int) *seqWorker { return &seqWorker{r: r, t: p.get()} }, func(w *seqWorker, i int64) {
+		l := string(letters[int(i)/len(letterShapes)])
+		s := letterShapes[int(i)%len(letterShapes)](l)
+		w.t.states++
+		st := w.readOne(s, &seqOpts{domain: "symbol-spelling"})
+		w.t.traces++
+		if i%97 == 0 {
+			r.Nontrivial("spelling\x00" + s)
+		}
+		if !readerSaysSymbol(s, st) {
+			report(r, "symbol-spelling:reader-disagrees-with-model:letter-sweep:"+[]string{"alone", "after-letter", "before-letter", "in-keyword", "in-qualified-name"}[int(i)%len(letterShapes)], kase{Kind: "symmodel", Text: qtext(s)},
+				&fail{"symmodel", fmt.Sprintf("model: %q readable as one symbol = true (every rune is a letter or a word symbol)", s), short(st.String())})
+			return
+		}
+		w.t.outcomes["symbol-spelling:readable"]++
+		valueCase(r, w.t, symN(s, 0), "symbol", false, true)
+	})
 	extra["symbol_spellings_readable"] = readable
 	extra["symbol_spellings_unreadable"] = unreadable
 
